@@ -76,13 +76,18 @@ def optimize_prec_assignment(model: MPS,
                 else:
                     raise ValueError("Unsupported quantizer type")
 
-                best_cost = copy.deepcopy(base_cost)
-                best_cost_w_theta_alpha_array = copy.deepcopy(w_theta_alpha_array)
                 config_cost = _compute_cost(model, layer, w_theta_alpha_array, cost_fn_map, lname, node)
                 assert config_cost == base_cost, "The cost of the layer is not consistent with the original configuration"
 
                 sorted_indexes = torch.argsort(layer.w_mps_quantizer.precision)
                 sorted_precisions = [layer.w_mps_quantizer.precision[i] for i in sorted_indexes]
+                # channel shares are multiples of 1 / n_channels accumulated in floating point:
+                # a share is exhausted when less than half a channel is left
+                half_channel = 0.5 / layer.w_mps_quantizer.theta_alpha.shape[1]
+
+                # the best configuration is kept in the sorted order of the precisions
+                best_cost = copy.deepcopy(base_cost)
+                best_cost_w_theta_alpha_array = [copy.deepcopy(w_theta_alpha_array)[i] for i in sorted_indexes]
 
                 # Case 1: assign a channel at a time to a higher precision. Save the configuration if the cost decreases
                 w_theta_alpha_array_tmp = [copy.deepcopy(w_theta_alpha_array)[i] for i in sorted_indexes]
@@ -92,13 +97,13 @@ def optimize_prec_assignment(model: MPS,
                         continue
                     for j in range(i + 1, len(sorted_precisions)):
                         w_theta_alpha_array_tmp = [copy.deepcopy(w_theta_alpha_array)[i] for i in sorted_indexes]
-                        while w_theta_alpha_array_tmp[i] > 0:
+                        while w_theta_alpha_array_tmp[i] > half_channel:
                             w_theta_alpha_array_tmp[i] -= (1. / layer.w_mps_quantizer.theta_alpha.shape[1])
                             w_theta_alpha_array_tmp[j] += (1. / layer.w_mps_quantizer.theta_alpha.shape[1])
                             cost_tmp = _compute_cost(model, layer, w_theta_alpha_array_tmp, cost_fn_map, lname, node)
                             if cost_tmp < best_cost:
                                 best_cost = cost_tmp
-                                best_cost_w_theta_alpha_array = copy.deepcopy(w_theta_alpha_array_tmp) # TODO: check sorting!!!
+                                best_cost_w_theta_alpha_array = copy.deepcopy(w_theta_alpha_array_tmp)
                                 print("* Layer '{}' cost decreased from {} to {} with the following channels counts for each precision:"
                                       "\n\tprecisions: {}"
                                       "\n\toriginal:   {}"
@@ -117,7 +122,7 @@ def optimize_prec_assignment(model: MPS,
                     if sorted_precisions[i] == 0:
                         continue
                     for j in range(i + 1, len(sorted_precisions)):
-                        while w_theta_alpha_array_tmp[i] > 0:
+                        while w_theta_alpha_array_tmp[i] > half_channel:
                             w_theta_alpha_array_tmp[i] -= (1. / layer.w_mps_quantizer.theta_alpha.shape[1])
                             w_theta_alpha_array_tmp[j] += (1. / layer.w_mps_quantizer.theta_alpha.shape[1])
                             cost_tmp = _compute_cost(model, layer, w_theta_alpha_array_tmp, cost_fn_map, lname, node)
@@ -136,7 +141,8 @@ def optimize_prec_assignment(model: MPS,
                 best_model_cost += best_cost
 
                 # Sort the best configuration according to the original order of the precisions
-                best_theta_alpha_array = torch.tensor([best_cost_w_theta_alpha_array[i] for i in sorted_indexes])
+                original_indexes = torch.argsort(sorted_indexes)
+                best_theta_alpha_array = torch.tensor([best_cost_w_theta_alpha_array[i] for i in original_indexes])
                 best_theta_alpha_array = torch.mul(best_theta_alpha_array, layer.w_mps_quantizer.theta_alpha.shape[1])
 
                 # Update the layer with the best configuration.
@@ -198,7 +204,7 @@ def _reassign_precisions(best, scores):
     # Enforce the new cardinality
     for prec in range(num_precisions):
         # Get the number of channels that should be assigned to this precision
-        target_count = int(best[prec].item())
+        target_count = int(round(best[prec].item()))
 
         # If no channels must have this precision, reassign all the channels at the
         # current precision.
@@ -224,7 +230,7 @@ def _reassign_precisions(best, scores):
 
     # Reassign channels marked as unassigned to precisions that need more channels
     for prec in range(num_precisions):
-        target_count = int(best[prec].item())
+        target_count = int(round(best[prec].item()))
         current_count = (new_assignment == prec).sum().item()
 
         # If there are not enough channels assigned to this precision, use the unassigned channels
